@@ -7,7 +7,9 @@
 #      simulation on 4 agents (thorough), and verifies that every deviation action is caught (sensitivity);
 #   2. records seeded random system-level scenarios on REAL agents (cmesh) and lets TLC decide whether every recorded
 #      execution is a behaviour of System.tla (TraceSystem.tla), S1-S5 evaluated on every state of the search;
-#   3. runs two directed scenarios: a held-back disconnect handler (hook peer.read.disconnect) at a sleeping transit, and
+#   3. runs two directed scenarios: a held-back disconnect handler (hook peer.read.disconnect) at a sleeping transit
+#      (the defect it showed, System:S2relay:DevSkipCleanupWhenSuperseded, is repaired by 3c80d8e: the scenario must now be
+#      accepted by the ideal design; were it rejected again the finding is reported as a VIOLATION), and
 #      a one-hop tunnel with a unit in flight when its connection dies (frame held back by cmesh).
 # Interpretations (permissive side):
 #   * S1 is about the connections a tunnel is BUILT over (records created over registered connections, consistent
@@ -15,8 +17,10 @@
 #   * S2 covers routes and relay entries.  Ingress stream records and exit connection records of a tunnel whose path
 #     broke are not touched by the disconnect handling in the code (the application's close / the exit handler's idle
 #     timeout reclaim them, DESIGN C17); the model keeps them the same way and the check does not flag them.
-#   * S3: a replayed announcement that the receiver has already seen is dropped (seen cache), so convergence after a
-#     reconnect is required only for origins that announced after the last topology change.
+#   * S3: convergence at quiescence is required for origins that announced after the last topology change.  (The
+#     disconnect handling forgets the seen-cache entries of the routes it removes - 0a48014 - so the table replay of a
+#     reconnecting peer restores them; that is modelled and validated by the traces.  A route lost at b is not restored
+#     from another neighbour that still holds it, so nothing stronger is an invariant.)
 # A recorded execution that System.tla rejects is re-validated with one deviation enabled at a time to name the cause.
 import json, os
 import vf
